@@ -114,6 +114,64 @@ def sets_of(proto, op):
     return m[16:] if proto == "ipfix" else m[20:]
 
 
+def peer_over_the_wire(ctx, addr):
+    """IPFIX, cache misses answered by a peer collector: the peer learns templates from its own exporters, this collector
+    fetches them with the real RPCClient over a real net/rpc connection (one connection for all fetches) and stores the
+    answers the way RPC() does; data is then decoded with exactly what the peer had for that exporter and id"""
+    import itertools
+    drv = codec.driver(ctx, "ipfix")
+    keys = [("ea", 256, 2), ("eb", 300, 1), ("ea", 257, 3), ("ec", 256, 1), ("eb", 257, 5)]
+    jobs, metas = [], []
+    for order in list(itertools.permutations(range(len(keys))))[::7]:
+        msgs = [{"exp": addr["ea"], "buf": [], "op": "preset"}]
+        for e, tid, v in keys:
+            msgs.append({"exp": addr[e], "buf": tpl_msg("ipfix", tid, v), "op": "pannounce"})
+        for k in order:
+            e, tid, v = keys[k]
+            msgs.append({"exp": addr[e], "buf": [], "op": "peerfetch", "tid": tid})
+        want = []
+        for e, tid, v in keys:
+            msgs.append({"exp": addr[e], "buf": data_msg("ipfix", tid)})
+            want.append((len(msgs) - 1, e, tid, v))
+        # the peer learns a new definition; fetched again, it replaces the old one here
+        e, tid, _ = keys[order[0]]
+        msgs.append({"exp": addr[e], "buf": tpl_msg("ipfix", tid, 1 if keys[order[0]][2] != 1 else 2), "op": "pannounce"})
+        msgs.append({"exp": addr[e], "buf": [], "op": "peerfetch", "tid": tid})
+        msgs.append({"exp": addr[e], "buf": data_msg("ipfix", tid)})
+        want.append((len(msgs) - 1, e, tid, 1 if keys[order[0]][2] != 1 else 2))
+        for e2, tid2, v2 in keys:
+            if (e2, tid2) != (e, tid):
+                msgs.append({"exp": addr[e2], "buf": data_msg("ipfix", tid2)})
+                want.append((len(msgs) - 1, e2, tid2, v2))
+        jobs.append({"msgs": msgs})
+        metas.append((order, want))
+    res = flowjobs.run_jobs(ctx, drv, codec.P["ipfix"]["jobs"], jobs, tag="c04peer", timeout=600)
+    for job, (order, want), r in zip(jobs, metas, res):
+        ctx.count(["ipfix", "peer-over-the-wire", list(order)])
+        if r.get("skipped"):
+            continue
+        if "killed" in r:
+            ctx.violation("IPFIX: fetching templates from a peer killed the process (%s)" % r["killed"], {"job": job}, key="ipfix:peer:killed")
+            continue
+        bad = next((x for x in r["res"] if x["st"] in ("panic", "infra")), None)
+        if bad:
+            if bad["st"] == "infra":
+                raise vlib.Infra("peer RPC server could not be set up: %s" % bad.get("err"))
+            ctx.violation("IPFIX: fetching templates from a peer panicked: %s" % bad.get("panic"), {"job": job}, key="ipfix:peer:panic")
+            continue
+        for idx, e, tid, v in want:
+            x = r["res"][idx]
+            got = [[(f["i"], tuple(f["v"]["o"])) for f in rec] for rec in x["recs"]]
+            if x["st"] != "ok" or got != expected_recs(v):
+                ctx.violation("IPFIX, templates fetched from a peer over RPC in the order %s: data of exporter %s id %d must be decoded with the "
+                              "definition the peer had for it (version %d); decoded %s, %d records of %s fields"
+                              % ([keys[k][:2] for k in order], e, tid, v, x["st"], len(got), sorted({len(rec) for rec in got})),
+                              {"order": list(order), "exporter": addr[e], "id": tid}, key="ipfix:peer:wire")
+                break
+        else:
+            ctx.traces_validated += 1
+
+
 def job_merged(proto, hist, addr, cuts=()):
     """the same history with every maximal run of consecutive datagram operations of one exporter sent as ONE
     message holding several sets ('announced earlier in the same message'); cuts: operation indices at which a new
@@ -304,6 +362,7 @@ def check(ctx):
             judge_merged(ctx, proto, h, a4, job, groups, r)
         ctx.traces_validated += len(mjobs)
     ctx.sample({"history": hists[len(hists) // 2], "exporters": a4})
+    peer_over_the_wire(ctx, a4)
     # ---- B: interleaved multi-exporter histories validated by the reference collector
     for proto in ("ipfix", "v9"):
         drv = codec.driver(ctx, proto)
